@@ -891,25 +891,29 @@ class Analysis:
         else:
             ok = True
             al = self.align_chunks(exp, osig, ech, och)
-            consumed = set()
+            # an @import whose expected rewrite is absent, next to an unexpected `@media layer …`
+            # chunk: that chunk is the (wrong) rewrite of the same @import, not a second finding
+            consumed = {}
             for n, ((i1, i2), (j1, j2)) in enumerate(al):
-                if n in consumed:
+                if j1 == j2 and i1 < i2 and exp[i1].ctx is not None and exp[i1].ctx.special == "import" \
+                        and exp[i1].kind == "at" and exp[i1].val == "layer":
+                    for nb in range(max(0, n - 3), min(len(al), n + 4)):
+                        (a1, a2), (b1, b2) = al[nb]
+                        if a1 == a2 and b1 < b2 and nb not in consumed.values() and osig[b1].kind == "at" \
+                                and osig[b1].val == "media" and b1 + 1 < b2 and osig[b1 + 1].kind == "ident" \
+                                and osig[b1 + 1].val.lower() == "layer":
+                            consumed[n] = nb
+                            break
+            skip = set(consumed.values())
+            for n, ((i1, i2), (j1, j2)) in enumerate(al):
+                if n in skip:
                     continue
                 if i1 == i2:
                     ok = False
                     self.report_extra(osig[j1:j2], exp[i2] if i2 < len(exp) else None, which, enclosing)
                 elif j1 == j2:
                     ok = False
-                    o = None
-                    if exp[i1].ctx is not None and exp[i1].ctx.special == "import":
-                        # what stands there instead is the (wrong) rewrite of the same @import
-                        for nb in (n + 1, n - 1):
-                            if 0 <= nb < len(al) and nb not in consumed and al[nb][0][0] == al[nb][0][1] and (nb > n or True):
-                                if nb < n:
-                                    continue   # already reported as added
-                                o = osig[al[nb][1][0]]
-                                consumed.add(nb)
-                                break
+                    o = osig[al[consumed[n]][1][0]] if n in consumed else None
                     self.report_dropped_runs(exp[i1:i2], o, which)
                 else:
                     ok = self.cmp_tokens(exp, osig, ws_before, which, enclosing, i1, i2, j1, j2) and ok
